@@ -57,6 +57,28 @@ Theorem c08_gamespy3_assembly_order_independent : forall pkts pkts' vs,
 Proof. exact collect_order_independent. Qed.
 Print Assumptions c08_gamespy3_assembly_order_independent.
 
+(* the whole loop and the whole query: the packets of a reply, each once, in ANY arrival order - the client goes on
+   reading until every packet has arrived (also when the one flagged last comes first), puts each into its place and
+   returns exactly what it returns for the order sent *)
+From GD Require Import Proofs.Gamespy2Roundtrip Proofs.Gamespy3Reply Proofs.Gamespy3Query Proofs.Gamespy3Order.
+Theorem c08_gamespy3_loop_any_order : forall (todo done : list (nat * bytes)) n fuel t sn cur tr,
+  todo <> [] -> (n <= 128)%nat -> (length todo <= fuel)%nat ->
+  NoDup (map fst (done ++ todo)) -> (forall p, In p (done ++ todo) -> (fst p < n)%nat /\ snd p <> [] /\ (length (snd p) + 17 <= 2048)%nat) ->
+  length (done ++ todo) = n ->
+  exists tr',
+    gs3_packets_loop fuel (collect done []) (if has_last n done then Some n else None)
+      (mknet (map Datagram (map (dg n) todo)) t [] sn cur tr)
+    = (Ok (collect (done ++ todo) []), mknet [] t [] sn cur tr').
+Proof. exact packets_any_order. Qed.
+Print Assumptions c08_gamespy3_loop_any_order.
+Theorem c08_gamespy3_query_any_order : forall port s dgs, wf_s3 s = true ->
+  (- 2147483648 <= s3_challenge s < 2147483648)%Z -> (length (show_Z (s3_challenge s)) <= 10)%nat ->
+  (length (s3_payloads s) <= 128)%nat -> Forall (fun p => (length p + 17 <= 2048)%nat) (s3_payloads s) ->
+  Permutation dgs (s3_packets s) ->
+  fst (gs3_query port None (script_net (s3_handshake s :: dgs))) = Ok (s3_expected s).
+Proof. exact gs3_query_any_order. Qed.
+Print Assumptions c08_gamespy3_query_any_order.
+
 (* tests: a generated multi-packet GameSpy 3 response and a multi-part GameSpy 1
    response, received in reverse order, give the in-order result *)
 Example c08_ex_gamespy :
